@@ -32,12 +32,16 @@ def run(ctx):
     r410(ctx, api)
     from . import simple_append as _sa, c14 as _c14
     _sa.commit_after_loop_rule(ctx, 'R4.11')
+    _sa.commit_after_loop_multi_rule(ctx, 'R4.11')
     _c14.r147(ctx, 'R4.12')
     from . import findings2 as _f2
     _f2.json_statistics(ctx, 'R4.9')
     from . import c02, c05, c20
     c02.r27(ctx, 'R4.7')
     c05.r55(ctx, api)        # sorted_partitioned_columns(filters=...) goes through filter_row_groups(as_idx=True)
+    c05.r54(ctx, api)        # ... and the bounds it is judged by are those of the column named, decoded per column
+    from . import c01 as _c01
+    _c01.r126(ctx, 'R4.13')    # stored bounds are decoded through converted_types.convert
     c20.r202(ctx)            # pf[i].statistics must be computed for the slice, not inherited
     from . import callsigs as _cs
     _cs.general_rules(ctx, 'R4', ['writer.write', 'writer.write_simple', 'writer.write_multi', 'writer.make_row_group', 'writer.make_part_file', 'writer.partition_on_columns', 'api.statistics', 'api.sorted_partitioned_columns'])
@@ -116,10 +120,22 @@ def r42(ctx, wr):
     f = wr.func('write_column')
     loop = _find_page_loop(f)
     pre = f.body[:f.body.index(loop)]
-    blk = [s for s in pre if isinstance(s, ast.If) and 'stats' in norm(s.test)]
-    if len(blk) != 1 or not blk[0].orelse or not isinstance(blk[0].orelse[0], ast.If):
+    blk = [s for s in pre if isinstance(s, ast.If) and 'stats' in norm(s.test) and s.orelse and isinstance(s.orelse[0], ast.If)]
+    if len(blk) != 1:
         raise AnalysisError('R4.2: statistics if/elif block of write_column not found')
     cat_arm, plain_arm = blk[0], blk[0].orelse[0]
+    # the bounds that go into the footer are the ones computed there: nothing re-binds max / min afterwards (a prefix
+    # of the largest value is not an upper bound, a rounded minimum not a lower one)
+    later = []
+    for st in walk_no_nested(f):
+        if isinstance(st, (ast.Assign, ast.AugAssign)) and not any(st is y for y in ast.walk(blk[0])):
+            tg = st.targets if isinstance(st, ast.Assign) else [st.target]
+            names = {x.id for t in tg for x in ast.walk(t) if isinstance(x, ast.Name)}
+            if names & {'max', 'min'} and not (isinstance(st, ast.Assign) and norm(st.value) in ('(None, None)', 'None')):
+                later.append(st)
+    ctx.ob('R4.2', 'writer.write_column:bounds-are-not-altered-after-they-were-computed', not later,
+           '%s: the recorded min / max must bound every stored value exactly as the reader compares them' % [norm(x)[:60] for x in later],
+           wr.loc(later[0]) if later else wr.loc(blk[0]))
     ctx.ob('R4.2', 'writer.write_column:both-arms-conditional-on-stats',
            norm(cat_arm.test) == 'isinstance(data0.dtype, pd.CategoricalDtype) and stats' and norm(plain_arm.test) == 'stats',
            '%s | %s' % (norm(cat_arm.test), norm(plain_arm.test)), wr.loc(cat_arm))
